@@ -437,7 +437,7 @@ def shutdown_cases(v, wd, rip, reps=2):
     given up by the owner's LAST step; the drain of in-flight requests belongs to the owner's life)."""
     import urllib.request
     for rep in range(reps):
-        inflight_s = (1.6, 0.9)[rep % 2]
+        inflight_s = (1.6, 1.3)[rep % 2]
         root = os.path.join(wd, f"shutdown-{rep}")
         data, ws = os.path.join(root, "data"), os.path.join(root, "ws")
         os.makedirs(data)
@@ -499,9 +499,9 @@ def shutdown_cases(v, wd, rip, reps=2):
                             b_meta_while_a_alive = time.time() - t_term
                     except Exception:
                         pass
-                    # the owner's last steps (drop the files, return from main) take milliseconds; 300 ms of life after the
-                    # lock stopped naming it is not "about to exit"
-                    if gone_at is not None and time.time() - gone_at > 0.3:
+                    # the owner's last steps (drop the files, return from main, tear the runtime down) take milliseconds, on a busy
+                    # machine perhaps tenths of a second; 700 ms of life after the lock stopped naming it is not "about to exit"
+                    if gone_at is not None and time.time() - gone_at > 0.7:
                         v.violation(f"`rip serve` (pid {a.pid}) with a request in flight was still running {time.time() - gone_at:.2f} s after lock.json stopped naming it "
                                     f"({'absent' if foreign is None else 'pid ' + str(foreign)}) following SIGTERM"
                                     + (f"; a second `rip serve` advertised itself as the authority {b_meta_while_a_alive:.2f} s after the signal while the first was alive" if b_meta_while_a_alive else ""),
